@@ -206,8 +206,12 @@ def call(idx, op, args, pair):
 
 
 def _nonull(x):
+    # the three observations are only ever compared as wholes (C17_Transparent / C17_Idempotent): every scalar is given ONE
+    # type, so that a size on one side and no size on the other is a FALSE comparison for TLC, not an evaluation error
     if x is None:
         return "none"
+    if isinstance(x, int) and not isinstance(x, bool):
+        return "int:%d" % x
     if isinstance(x, dict):
         return {k: _nonull(v) for k, v in x.items()}
     if isinstance(x, (list, tuple)):
